@@ -1136,8 +1136,8 @@ def b_range(interp, st, *args):
         start, stop, step = args[0], args[1], 1
     else:
         start, stop, step = args
-    if not isinstance(start, int) or not isinstance(step, int):
-        raise Unsupported("range with symbolic start/step")
+    if not isinstance(step, int):
+        raise Unsupported("range with symbolic step")
     return In.SymRange(start, stop, step)
 
 
@@ -1289,6 +1289,17 @@ def b_str(interp, st, x=""):
 
 
 @native
+def b_slice(interp, st, *args):
+    In = I()
+    args = [interp.use(st, a) for a in args]
+    if len(args) == 1:
+        return In.SliceV(None, args[0], None)
+    if len(args) == 2:
+        return In.SliceV(args[0], args[1], None)
+    return In.SliceV(*args)
+
+
+@native
 def b_enumerate(interp, st, x, start=0):
     return I().Enumerate(x, start)
 
@@ -1363,7 +1374,7 @@ BUILTINS = {
     "int": PyType("int", b_int), "float": PyType("float", b_float), "bool": PyType("bool", b_bool),
     "round": b_round, "pow": b_pow, "sum": b_sum, "isinstance": b_isinstance,
     "list": PyType("list", b_list), "tuple": PyType("tuple", b_tuple), "str": PyType("str", b_str),
-    "enumerate": b_enumerate, "zip": b_zip, "hash": b_hash,
+    "enumerate": b_enumerate, "slice": b_slice, "zip": b_zip, "hash": b_hash,
     "True": True, "False": False, "None": None, "NotImplemented": None,
     "ValueError": "ValueError", "KeyError": "KeyError", "TypeError": "TypeError",
     "NotImplementedError": "NotImplementedError", "Exception": "Exception",
